@@ -73,6 +73,9 @@ PINS = [
     ("autode/smiles/base.py", "SMILESBonds._bond_exists"),               # wf_mol: no duplicate / self bonds
     ("autode/smiles/base.py", "SMILESBonds.append"),
     ("autode/smiles/base.py", "SMILESBonds.insert"),
+    ("autode/smiles/base.py", "SMILESAtom.invert_stereochem"),           # ring-closing atom: marks must survive the inversion
+    ("autode/smiles/base.py", "RingBond.close"),
+    ("autode/smiles/base.py", "RingBond.__init__"),
     ("autode/atoms.py", "AtomCollection.n_atoms"),                       # builder.n_atoms (GNAtomsEq), species.n_atoms == 0
     ("autode/atoms.py", "AtomCollection.atoms"),
     ("autode/atoms.py", "Atom.__init__"),                                # label, atom_class
@@ -152,7 +155,14 @@ SPECIALS = [
     ("c1cc[se]c1", ["aromatic", "two-letter-aromatic"]),
     ("Cl[Pd-2](Cl)(Cl)Cl", ["metal", "charged", "square-planar"]),
     ("F[W](F)(F)(F)(F)(F)(F)F", ["metal", "metal-1letter", "coord-8"]),
-    # ---- thorough tier continues (quick takes the first 43) ----
+    # a / \\ alkene atom that itself carries the ring-CLOSING digit (Parser inverts the closing atom's stereochem), built-in path
+    ("C1CCCCCC/C=C/1", ["ring8", "db-stereo", "ring-closing-alkene"]),
+    ("[Pd]1CCC/C=C/1", ["metal", "db-stereo", "ring-closing-alkene"]),
+    ("C1C/C=C\\CC/C=C\\1", ["ring8", "db-stereo", "ring-closing-alkene"]),
+    # ---- thorough tier continues (quick takes the first 46) ----
+    ("C1CCCCCC/C=C\\1", ["ring8", "db-stereo", "ring-closing-alkene"]), ("[Pd]1CC/C=C\\C1", ["metal", "db-stereo"]), ("C1CCC/C=C/CC1", ["ring8", "db-stereo"]),
+    ("C1CCC/C=C\\CC1", ["ring8", "db-stereo"]), ("O1CCCCCC[C@H]1C", ["ring8", "tet-stereo", "ring-closing-centre"]), ("O1CCCCCC[C@@H]1C", ["ring8", "tet-stereo", "ring-closing-centre"]),
+    ("[Zn]1CC[C@H]1C", ["metal", "tet-stereo", "ring-closing-centre"]), ("C1CCCCCCC/C=C/1", ["ring8", "db-stereo", "ring-closing-alkene"]),
     ("C[C@H]1CC[C@H](C)CC1", ["tet-stereo", "ring-stereo"]), ("C[C@@H]1CC[C@@H](C)CC1", ["tet-stereo", "ring-stereo"]),
     ("O[C@H]1CC[C@@H](O)CC1", ["tet-stereo", "ring-stereo"]), ("C[C@H]1C[C@@H](C)C1", ["tet-stereo", "ring-stereo"]),
     ("C[C@@H]1CCC[C@H](C)C1", ["tet-stereo", "ring-stereo"]), ("F[C@H]1CC[C@@H](Cl)CC1", ["tet-stereo", "ring-stereo"]),
@@ -181,7 +191,7 @@ SPECIALS = [
     ("[W]$[W]", ["metal", "metal-1letter", "quadruple"]), ("C[Mo](C)$[Mo](C)C", ["metal", "quadruple"]), ("Cl[Cr]$[Cr]Cl", ["metal", "quadruple"]),
     ("[H]", ["single-atom"]), ("C", ["single-atom"]), ("[Na+]", ["metal", "single-atom", "charged"]), ("[F-]", ["single-atom", "charged"]),
     ("O", ["single-atom"]), ("[OH-]", ["charged"]), ("[NH4+]", ["charged"]), ("[H][H]", ["explicit-H"]),
-    ("C1CCCCCCCC1", ["ring8"]), ("O=C1CCCCCCCCC1", ["ring8"]), ("C1CCCCCCC1[CH3:2]", ["ring8", "class"]), ("C1CCCCCCC/C=C/1", ["ring8", "db-stereo"]),
+    ("C1CCCCCCCC1", ["ring8"]), ("O=C1CCCCCCCCC1", ["ring8"]), ("C1CCCCCCC1[CH3:2]", ["ring8", "class"]),
     ("c1ccc2[nH]ccc2c1", ["aromatic", "fused"]), ("C1CCC2CCCCC2C1", ["fused"]), ("C1CC2CCC1C2", ["fused"]), ("C1C2CC3CC1CC(C2)C3", ["fused"]),
     ("c1ccoc1", ["aromatic"]), ("c1ccsc1", ["aromatic"]), ("c1ccncc1", ["aromatic"]), ("c1ccccc1c1ccccc1", ["aromatic", "linker"]),
     ("Cc1ccccc1-c1ccccc1[Pd]Cl", ["aromatic", "linker", "metal"]),
@@ -198,7 +208,7 @@ SPECIALS = [
     ("[CH3:1]C(=O)[OH:2]", ["class"]), ("[CH2:7]=O", ["class"]), ("c1cc[cH:4]cc1", ["class", "aromatic"]),
     ("CS(=O)(=O)C", []), ("CP(C)C", []), ("C#N", []), ("CC#CC", []), ("[O-][N+](=O)c1ccccc1", ["charged", "aromatic"]), ("C[NH3+]", ["charged"]),
 ]
-N_QUICK_SPECIALS = 43
+N_QUICK_SPECIALS = 46
 
 TEMPLATES = [
     ("{R}C(=O)O", []), ("{R}C#N", []), ("{R}C(=O)N{S}", []), ("c1ccc({R})cc1", ["aromatic"]), ("{R}c1ccc({S})cc1", ["aromatic"]),
@@ -219,7 +229,7 @@ SUBS_U = ["CC", "O", "F", "Cl", "C=C", "c2ccccc2", "C(=O)O"]              # keep
 def gen_smiles(ctx):
     specials = SPECIALS[:N_QUICK_SPECIALS] if ctx.quick else SPECIALS
     out = [(s, list(t) + ["special"]) for s, t in specials]
-    n_random = 16 if ctx.quick else 260
+    n_random = 14 if ctx.quick else 260
     seen = {s for s, _ in out}
     tries = 0
     while len(out) < len(specials) + n_random and tries < 20 * n_random:
@@ -1000,7 +1010,7 @@ MANIFEST = {
                    "pairwise distinct coordinates are observed only); the SMILES parser (C01) and RDKit are inputs; whether the annotation equals what the SMILES denotes is decided by "
                    "the RDKit-referenced implementation oracles, not by the theorems."),
     "level_note": ("Trusted: Coq kernel; tr/translate_c02.py; the hand model of make_graph / networkx attribute semantics / hydrogen expansion / atoms setter (source text compared each run, "
-                   "32 further functions hash-pinned, behaviour validated by the correspondence on every generated molecule and path).  Definitional/tripwire theorems (audit): "
+                   "35 further functions hash-pinned, behaviour validated by the correspondence on every generated molecule and path).  Definitional/tripwire theorems (audit): "
                    "charge_and_multiplicity_builtin, rebuild_forgets_marks, translated_helpers_match_model, the built-in half of pi_flags_exact restate definitions and only fix statement order; "
                    "path_selection_table takes `metal` as a free boolean (its relation to the string is exercised by check_trace only).  Not modelled: Builder.set_atoms_bonds raising on "
                    "> 8 neighbours, coordinates."),
